@@ -329,6 +329,33 @@ func parseUintBoundaries(r *common.Run) {
 					}
 				}
 			}
+			// bit sizes 0 (= the platform word), -1 and 65 with values around 2^32 and 2^64: the short
+			// texts never reach 2^32
+			two32 := new(big.Int).Lsh(one, 32)
+			for _, bs := range []int{0, -1, 65} {
+				for _, v := range []*big.Int{new(big.Int).Sub(two32, one), two32, new(big.Int).Add(two32, one), max64, two64} {
+					for _, in := range boundaryTexts(v.Text(b), b) {
+						puCount(checkPU(r, in.text, in.base, bs), in.text, in.base, bs, &ev, &nt)
+					}
+				}
+			}
+			// long numerals: 30 and 100 leading zeros before a boundary value, and a 100-digit overflow
+			for _, bs := range []int{0, 8, 64} {
+				for _, v := range []*big.Int{one, max64, two64} {
+					for _, zeros := range []int{30, 100} {
+						puCount(checkPU(r, strings.Repeat("0", zeros)+v.Text(b), b, bs), "", b, bs, &ev, &nt)
+					}
+				}
+				puCount(checkPU(r, strings.Repeat("1", 100), b, bs), "", b, bs, &ev, &nt)
+			}
+		}
+		for _, pre := range []string{"0x", "0o", "0b", "0"} { // base 0: the same after a prefix
+			for _, zeros := range []int{30, 100} {
+				for _, bs := range []int{0, 64} {
+					puCount(checkPU(r, pre+strings.Repeat("0", zeros)+"1", 0, bs), "", 0, bs, &ev, &nt)
+					puCount(checkPU(r, pre+strings.Repeat("0", zeros)+strings.Repeat("1", 70), 0, bs), "", 0, bs, &ev, &nt)
+				}
+			}
 		}
 		return ev, nt
 	})
